@@ -20,7 +20,9 @@ ROUTER_NOTE = ("Proof level holds for the router-core MODEL (coq/Router): hand-w
 
 ROUTER = {
     "C01": ("broker_wf invariant over all broker operation sequences, publish_exact (EVENTs = exactly the matching, eligible holders, once each, same "
-            "publication id, arguments unchanged), allowed_spec/make_filter facts, stable subscription ids, error branches and frame lemmas; "
+            "publication id, arguments unchanged), allowed_spec/make_filter facts, stable subscription ids, error branches and frame lemmas; over whole histories of Realm.run "
+            "(Props/HistoriesC01.v): step_decomp, realm_sub_discipline / realm_event_only_to_subscriber (gate hypothesis, full without authorizer, refutation when an authorizer rewrites UNSUBSCRIBE), "
+            "realm_publish_exact at every reachable state, publication ids monotone; "
             "decided on histories of profile pubsub", "invariant + exact-delivery theorem over the broker model; differential histories"),
     "C02": ("dealer_wf (calls / invocations / invocationByCall in bijection) preserved by every dealer function; reply_owned, final reply consumes the "
             "call, one prompt_* lemma per trigger (unroutable, final YIELD/ERROR, callee gone incl. after a kill-mode cancel, CANCEL skip/killnowait, timer), "
@@ -44,7 +46,7 @@ ROUTER = {
     "C18": ("count_is_length, listed_fetchable, lookup_match_agree (registration.match = the registration a CALL is routed to; subscription.match = "
             "the subscriptions a PUBLISH delivers through), meta_event_order, not_echoed, ineffective_silent, kill_exact, testament_api", "meta API theorems; differential histories with meta calls at every position"),
     "C20": ("store_is_last_N, restricted_never_stored, retention_independent_of_subscribers, query_spec (limit before reverse, bounds), "
-            "query_numkind_invariant; histories with ring sizes 1-5, churn, all filter combinations and numeric kinds", "ring-buffer and query theorems; differential histories"),
+            "query_numkind_invariant; over whole histories (Props/HistoriesC20.v): realm_store_is_last_N, realm_get_events_sound; histories with ring sizes 1-5, churn, all filter combinations and numeric kinds", "ring-buffer and query theorems; differential histories"),
 }
 
 
